@@ -41,7 +41,9 @@ func TestMain(m *testing.M) {
 // Case is one execution request. CtxKind selects how the engine is invoked:
 // 0 WithScripts only; 1 WithTx(tx, idx, prevOut); 2 WithTx(tx, idx, nil)+WithScripts;
 // 3 WithTx with a previous output that has no locking script + WithScripts;
-// 4 WithTx + matching WithScripts; 5 WithTx whose input has a nil unlocking script + WithScripts.
+// 4 WithTx + matching WithScripts; 5 WithTx whose input has a nil unlocking script + WithScripts;
+// 6/7 WithTx + WithScripts with a differing locking / unlocking script; 8/9 a nil locking / unlocking script;
+// 10 no option at all; 11 a transaction without inputs; 12 WithTx with a nil previous output and no scripts.
 type Case struct {
 	Unlock  pbt.Hex `json:"unlock"`
 	Lock    pbt.Hex `json:"lock"`
@@ -92,8 +94,23 @@ func (c Case) options(dbg interpreter.Debugger) []interpreter.ExecutionOptionFun
 		o = append(o, interpreter.WithTx(tx, c.Idx, &bt.Output{Satoshis: c.Amount}), interpreter.WithScripts(lock, unlock))
 	case 4:
 		o = append(o, interpreter.WithTx(tx, c.Idx, &bt.Output{Satoshis: c.Amount, LockingScript: lock}), interpreter.WithScripts(lock, unlock))
-	default:
+	case 5:
 		o = append(o, interpreter.WithTx(tx, c.Idx, &bt.Output{Satoshis: c.Amount, LockingScript: lock}), interpreter.WithScripts(lock, unlock))
+	case 6: // explicit scripts that differ from the ones the transaction / previous output carry
+		other := bscript.NewFromBytes(append(append([]byte{}, c.Lock...), 0x61))
+		o = append(o, interpreter.WithTx(tx, c.Idx, &bt.Output{Satoshis: c.Amount, LockingScript: lock}), interpreter.WithScripts(other, unlock))
+	case 7:
+		otherU := bscript.NewFromBytes(append(append([]byte{}, c.Unlock...), 0x00))
+		o = append(o, interpreter.WithTx(tx, c.Idx, &bt.Output{Satoshis: c.Amount, LockingScript: lock}), interpreter.WithScripts(lock, otherU))
+	case 8: // missing scripts
+		o = append(o, interpreter.WithScripts(nil, unlock))
+	case 9:
+		o = append(o, interpreter.WithScripts(lock, nil))
+	case 10: // nothing at all
+	case 11: // a transaction without inputs
+		o = append(o, interpreter.WithTx(&bt.Tx{}, c.Idx, &bt.Output{Satoshis: c.Amount, LockingScript: lock}))
+	default:
+		o = append(o, interpreter.WithTx(tx, c.Idx, nil))
 	}
 	o = append(o, interpreter.WithFlags(scriptflag.Flag(c.Flags)))
 	if dbg != nil {
@@ -273,7 +290,7 @@ func genCase(t *rapid.T) Case {
 		}
 	}
 	c := Case{Unlock: p.Unlock, Lock: p.Lock, Flags: uint32(p.Flags), Level: p.Level,
-		CtxKind: rapid.SampledFrom([]int{0, 1, 1, 1, 2, 3, 4, 5}).Draw(t, "ctx"),
+		CtxKind: rapid.SampledFrom([]int{0, 0, 1, 1, 1, 1, 1, 2, 3, 4, 5, 6, 7, 8, 9, 10, 11, 12}).Draw(t, "ctx"),
 		NIn:     rapid.IntRange(1, 3).Draw(t, "nin"),
 		Version: rapid.SampledFrom([]uint32{0, 1, 2, 0xffffffff}).Draw(t, "version"),
 		Lock32:  rapid.SampledFrom([]uint32{0, 100, 499999999, 500000000, 0xffffffff}).Draw(t, "locktime"),
@@ -352,7 +369,7 @@ func FuzzExecute(f *testing.F) {
 		if len(unlock) > 2000 || len(lock) > 2000 {
 			t.Skip()
 		}
-		c := Case{Unlock: unlock, Lock: lock, Flags: flags & 0xffff, CtxKind: int(ctxKind % 6), NIn: 2, Idx: int(idx), Version: 2, Lock32: 100, Seq: 50, Level: "fuzz"}
+		c := Case{Unlock: unlock, Lock: lock, Flags: flags & 0xffff, CtxKind: int(ctxKind % 13), NIn: 2, Idx: int(idx), Version: 2, Lock32: 100, Seq: 50, Level: "fuzz"}
 		if err := check(&pbt.Ctx{}, c); err != nil {
 			if dir := os.Getenv("VERIF_FUZZ_OUT"); dir != "" {
 				n++
